@@ -416,6 +416,32 @@ def explore_sp_special(case):
             continue
         if got.shape != want.shape or np.max(np.abs(got - want)) > 1e-12 * (1 + np.max(np.abs(want))):
             res.fail(site="casadi_to_sympy", clause="value_preserved", cls="matrix;" + tag, detail=dict(converted=got, source=want), sub="special", case=case)
+    # represent or refuse: constructs beyond the documented set must either raise or convert with the value preserved (never silently altered)
+    X_, Y_ = sympy.Symbol("x"), sympy.Symbol("y")
+    beyond = [sympy.Max(X_, Y_, 1), sympy.Min(X_, Y_, 2, 3), sympy.Max(X_, Y_), sympy.Min(X_, 2), sympy.Abs(X_ - Y_), sympy.sign(X_ * Y_), sympy.floor(X_ / 2), sympy.ceiling(Y_),
+              sympy.Heaviside(X_ - 1), sympy.Piecewise((X_, X_ > Y_), (Y_ ** 2, True)), sympy.Mod(X_ + 7, 3), sympy.erf(X_), sympy.gamma(X_ + 3), sympy.atan2(Y_, X_), sympy.sinh(X_) * sympy.cosh(Y_),
+              sympy.tanh(X_ + Y_), sympy.asinh(X_), sympy.acosh(X_ + 3), sympy.log(X_ + 5, 2), sympy.exp(X_) ** Y_, sympy.Max(X_, Y_, X_ * Y_, -1), sympy.Min(sympy.Max(X_, 0), 1, Y_ + 4),
+              sympy.root(X_ + 5, 3), sympy.sec(X_), sympy.cot(X_ + 2), sympy.Rational(2, 7) * X_ + sympy.pi * Y_ - sympy.E, sympy.LambertW(X_ + 2), sympy.sinc(X_)]
+    for src in beyond:
+        res.count("evaluations")
+        res.nontrivial.add(hash("beyond" + sympy.srepr(src)))
+        try:
+            with contextlib.redirect_stdout(io.StringIO()):
+                e_ca, symbols = S.sympy_to_casadi(src)
+        except Exception:
+            res.count("refused")
+            continue
+        try:
+            fx = ca.Function("f", [symbols.get("x", ca.SX.sym("x")), symbols.get("y", ca.SX.sym("y"))], [ca.SX(e_ca)])
+        except Exception as ex:
+            res.fail(site="sympy_to_casadi", clause="unsupported_construct_raises_or_is_preserved", cls=type(src).__name__, detail=dict(expr=str(src), error="%s: %s" % (type(ex).__name__, str(ex)[:200])), sub="special", case=case)
+            continue
+        for xv, yv in ((0.5, 2.0), (-1.25, 3.75), (2.5, -0.75), (4.0, 0.25)):
+            want = mp_value(src, xv, yv)
+            got = float(np.array(fx(xv, yv)).reshape(-1)[0])
+            if want is not None and math.isfinite(want) and not abs(got - want) <= 1e-9 * max(1, abs(want)):
+                res.fail(site="sympy_to_casadi", clause="unsupported_construct_raises_or_is_preserved", cls=type(src).__name__, detail=dict(expr=str(src), x=xv, y=yv, converted=got, source=want), sub="special", case=case)
+                break
     # guarded expressions evaluated exactly where the guard is false and the guarded branch is singular (CasADi's if_else yields the other
     # branch there; a translation as a product would give 0 * oo): the library's own small-angle switches among them
     a, b = ca.SX.sym("a"), ca.SX.sym("b")
